@@ -50,7 +50,7 @@ func checkPruneTriple(p *load.Program, r *kit.Report, c *labelCtx) {
 		return
 	}
 	lin := kit.NewLin(f)
-	cnt := kit.LinAtom("p:count")
+	cnt := pAtom(f, 1)
 	bad := ""
 	sawDel, sawSlice, sawOff := false, false, false
 	for _, w := range kit.DirectWrites(f) {
@@ -417,7 +417,7 @@ func checkRepoLocks(p *load.Program, r *kit.Report) {
 		if !f.Object().Exported() || !touches[f] {
 			continue
 		}
-		if f.Name() == "GetNewHeadersAvailableChannel" || true {
+		if fname(f) == "GetNewHeadersAvailableChannel" || true {
 			// accesses: direct ones and calls to unexported methods that touch state
 			var acc []ssa.Instruction
 			acc = append(acc, direct(f)...)
